@@ -39,6 +39,7 @@ func runC14(r *Run) {
 		outs  []string
 		pan   string
 		model []string // the history in the oracle's syntax
+		doms  []string // per call: the domain field of an authenticate message ("-" otherwise)
 	}
 	var cases []*hcase
 	for i := 0; i < n; i++ {
@@ -86,6 +87,15 @@ func runC14(r *Run) {
 				} else {
 					st.pw = pws[rng.Intn(len(pws))]
 				}
+				if rng.Intn(6) == 0 {
+					// a logon name as users type it (UPN, down-level) around a configured account name, with that
+					// account's password: only the exact configured names exist
+					base := st.user
+					st.user = []string{base + "@corp.example", "CORP\\" + base, base + "@", "x@y\\" + base, base + " ", "\\" + base}[rng.Intn(6)]
+					if pw, ok := hc.db[base]; ok {
+						st.pw = pw
+					}
+				}
 				if len(negs) > 0 {
 					st.from = negs[len(negs)-1-rng.Intn(min(len(negs), 3))]
 				}
@@ -98,6 +108,7 @@ func runC14(r *Run) {
 			}
 			// build the message
 			var msg string
+			dom := "-"
 			mstr := string(st.kind)
 			switch st.kind {
 			case 'N':
@@ -114,7 +125,9 @@ func runC14(r *Run) {
 					break
 				}
 				cl := ntlm.V2ClientSession{}
-				cl.SetUserInfo(st.user, st.pw, "")
+				// the domain field is the client's to fill in (empty, a NetBIOS name, a DNS name): the proof covers it
+				dom = []string{"", "", "CORP", "corp.example"}[rng.Intn(4)]
+				cl.SetUserInfo(st.user, st.pw, dom)
 				cl.GenerateNegotiateMessage()
 				cm, err := ntlm.ParseChallengeMessage(challenges[st.from])
 				if err != nil {
@@ -187,6 +200,7 @@ func runC14(r *Run) {
 			hc.steps = append(hc.steps, st)
 			hc.outs = append(hc.outs, out)
 			hc.model = append(hc.model, sid+"/"+mstr)
+			hc.doms = append(hc.doms, fmt.Sprintf("%q", dom))
 		}
 		var dbs []string
 		for u, p := range hc.db {
@@ -215,7 +229,7 @@ func runC14(r *Run) {
 		if i < 2 {
 			r.Sample(map[string]interface{}{"db": hc.db, "history": hc.model, "impl": hc.outs, "model": ans[i]})
 		}
-		rep := fmt.Sprintf("database: %v\nhistory (session/message; A<named>:<user>:<password>:<challenge no.>): %s\nimplementation: %s\nmodel:          %s\n", hc.db, strings.Join(hc.model, " "), strings.Join(hc.outs, ","), ans[i])
+		rep := fmt.Sprintf("database: %v\nhistory (session/message; A<named>:<user>:<password>:<challenge no.>): %s\ndomain field per call: %s\nimplementation: %s\nmodel:          %s\n", hc.db, strings.Join(hc.model, " "), strings.Join(hc.doms, " "), strings.Join(hc.outs, ","), ans[i])
 		if hc.pan != "" {
 			r.Violation("c14-panic", "the NTLM verifier panicked: "+hc.pan, rep)
 			continue
